@@ -105,6 +105,11 @@ macro_rules! array_contract_checks {
                 if let Some(c) = call!(ctx, "bincount", input, a(v).bincount(size)) {
                     ctx.check(c.0 == want, &p("bincount", "counts"), || json!({"input": input, "size": size, "observed": c.0, "expected": want}));
                 }
+                // the tight bound (size = max+1) and, for the empty array, size 0
+                let tight = size - 1;
+                if let Some(c) = call!(ctx, "bincount", input, a(v).bincount(tight)) {
+                    ctx.check(c.0 == want[..tight], &p("bincount", "counts-tight-size"), || json!({"input": input, "size": tight, "observed": c.0}));
+                }
                 if let Some((keys, counts)) = call!(ctx, "sparse_bincount", input, a(v).sparse_bincount()) {
                     let mut ok = keys.0.len() == counts.0.len();
                     let mut seen = std::collections::BTreeSet::new();
@@ -132,8 +137,75 @@ macro_rules! array_contract_checks {
                 }
                 // range forms in bounds
                 let arr = a(v);
+                let sarr = s(v);
+                let svv = sv(v);
+                let mut bounds: Vec<(usize, usize)> = vec![];
                 for lo in 0..=n.min(3) {
                     for hi in lo..=n.min(4) {
+                        bounds.push((lo, hi));
+                    }
+                }
+                if n > 4 {
+                    // bounds anywhere in the array, up to its end
+                    let h = hash_of(&v) as usize;
+                    let x = h % (n + 1);
+                    let y = (h / 7919) % (n + 1);
+                    bounds.extend([(n / 2, n), (n / 3, 2 * n / 3), (n - 1, n), (n, n), (x.min(y), x.max(y))]);
+                }
+                for (lo, hi) in bounds {
+                    {
+                        // tuple-of-bounds forms incl. an excluded start; the same forms on a non-Copy element type
+                        use std::ops::Bound::*;
+                        let inp = json!({"array": v, "lo": lo, "hi": hi});
+                        if lo < hi {
+                            if let Some(x) = call!(ctx, "to_range", inp, (arr.to_range((Excluded(lo), Excluded(hi))), arr.to_range((Excluded(lo), Unbounded)), arr.to_range((Excluded(lo), Included(hi - 1))))) {
+                                ctx.check(x.0 == (lo + 1..hi) && x.1 == (lo + 1..n) && x.2 == (lo + 1..hi), &p("to_range", "excluded-start-normalised"), || json!({"input": inp, "observed": format!("{:?}", x)}));
+                            }
+                            if let Some(x) = call!(ctx, "get_range", inp, arr.get_range((Excluded(lo), Excluded(hi))).to_vec()) {
+                                ctx.check(x == v[lo + 1..hi], &p("get_range", "excluded-start-slice"), || json!({"input": inp, "observed": x}));
+                            }
+                        }
+                        if let Some(x) = call!(ctx, "get_range<T>", inp, (sarr.get_range(..).to_vec(), sarr.get_range(lo..).to_vec(), sarr.get_range(..hi).to_vec(), sarr.get_range(lo..hi).to_vec())) {
+                            ctx.check(x.0 == svv && x.1 == svv[lo..] && x.2 == svv[..hi] && x.3 == svv[lo..hi], &p("get_range<T>", "slice"), || json!({"input": inp, "observed": format!("{:?}", x)}));
+                        }
+                        if hi > lo {
+                            if let Some(x) = call!(ctx, "get_range<T>", inp, (sarr.get_range(..=hi - 1).to_vec(), sarr.get_range(lo..=hi - 1).to_vec())) {
+                                ctx.check(x.0 == svv[..hi] && x.1 == svv[lo..hi], &p("get_range<T>", "inclusive-slice"), || json!({"input": inp, "observed": format!("{:?}", x)}));
+                            }
+                        }
+                        // set_range through every form (the patch has the length of the addressed range)
+                        let forms: [(&str, std::ops::Range<usize>); 6] = [("..", 0..n), ("a..", lo..n), ("..b", 0..hi), ("a..b", lo..hi), ("..=b", 0..hi), ("a..=b", lo..hi)];
+                        for (form, rg) in forms {
+                            if form.contains('=') && hi == 0 {
+                                continue;
+                            }
+                            if form == "a..=b" && lo >= hi {
+                                continue;
+                            }
+                            let patch: Vec<usize> = (0..rg.len()).map(|k| 1000 + k).collect();
+                            let mut want = v.to_vec();
+                            want[rg.clone()].clone_from_slice(&patch);
+                            let inp = json!({"array": v, "form": form, "lo": lo, "hi": hi});
+                            let res = call!(ctx, "set_range", inp, {
+                                let mut b = a(v);
+                                let mut bs = s(v);
+                                let (pa, ps) = (a(&patch), s(&patch));
+                                match form {
+                                    ".." => { b.set_range(.., &pa); bs.set_range(.., &ps); }
+                                    "a.." => { b.set_range(lo.., &pa); bs.set_range(lo.., &ps); }
+                                    "..b" => { b.set_range(..hi, &pa); bs.set_range(..hi, &ps); }
+                                    "a..b" => { b.set_range(lo..hi, &pa); bs.set_range(lo..hi, &ps); }
+                                    "..=b" => { b.set_range(..=hi - 1, &pa); bs.set_range(..=hi - 1, &ps); }
+                                    _ => { b.set_range(lo..=hi - 1, &pa); bs.set_range(lo..=hi - 1, &ps); }
+                                }
+                                (b, bs)
+                            });
+                            if let Some((b, bs)) = res {
+                                ctx.check(b.0 == want && bs.0 == sv(&want), &p("set_range", "contiguous-write-all-forms"), || json!({"input": inp, "observed": b.0, "expected": want}));
+                            }
+                        }
+                    }
+                    {
                         let inp = json!({"array": v, "lo": lo, "hi": hi});
                         if let Some(x) = call!(ctx, "to_range", inp, (arr.to_range(..), arr.to_range(lo..), arr.to_range(..hi), arr.to_range(lo..hi))) {
                             ctx.check(x.0 == (0..n) && x.1 == (lo..n) && x.2 == (0..hi) && x.3 == (lo..hi), &p("to_range", "normalised"), || json!({"input": inp, "observed": format!("{:?}", x)}));
@@ -155,6 +227,11 @@ macro_rules! array_contract_checks {
                     let inp = json!({"array": v, "i": i});
                     if let Some(x) = call!(ctx, "get", inp, arr.get(i)) {
                         ctx.check(x == v[i], &p("get", "element"), || json!({"input": inp, "observed": x}));
+                    }
+                    if i < 8 || i + 2 >= n {
+                        if let Some(x) = call!(ctx, "get<T>", inp, sarr.get(i)) {
+                            ctx.check(x == svv[i], &p("get<T>", "element"), || json!({"input": inp, "observed": x}));
+                        }
                     }
                 }
             }
@@ -273,6 +350,32 @@ macro_rules! array_contract_checks {
                             }
                             ctx.check(ok, &p("scatter_assign", "self[ixs[i]]=values[i]"), || json!({"input": input, "observed": x.0}));
                         }
+                        let res = call!(ctx, "scatter_assign<T>", input, {
+                            let mut b = s(&base);
+                            b.scatter_assign(&a(&idx), s(&v));
+                            b
+                        });
+                        if let Some(x) = res {
+                            let mut ok = x.0.len() == size;
+                            for j in 0..size.min(x.0.len()) {
+                                let writers: Vec<String> = (0..n).filter(|&i| idx[i] == j).map(|i| format!("e{}", v[i])).collect();
+                                if writers.is_empty() {
+                                    ok = ok && x.0[j] == format!("e{}", base[j]);
+                                } else {
+                                    ok = ok && writers.contains(&x.0[j]);
+                                }
+                            }
+                            ctx.check(ok, &p("scatter_assign<T>", "self[ixs[i]]=values[i]"), || json!({"input": input, "observed": x.0}));
+                        }
+                        let res = call!(ctx, "scatter_assign_constant<T>", input, {
+                            let mut b = s(&base);
+                            b.scatter_assign_constant(&a(&idx), "c".to_string());
+                            b
+                        });
+                        if let Some(x) = res {
+                            let want: Vec<String> = (0..size).map(|j| if idx.contains(&j) { "c".to_string() } else { format!("e{}", base[j]) }).collect();
+                            ctx.check(x.0 == want, &p("scatter_assign_constant<T>", "self[ixs]=c"), || json!({"input": input, "observed": x.0}));
+                        }
                         let c = 7usize;
                         let res = call!(ctx, "scatter_assign_constant", input, {
                             let mut b = a(&base);
@@ -381,8 +484,13 @@ macro_rules! array_contract_checks {
                     }
                     8 | 9 => {
                         // connected components: dense numbering, same label iff connected
-                        let nodes = r.small(8);
-                        let ne = if nodes == 0 { 0 } else { r.small(8) };
+                        // mostly tiny; in the larger bands irregular graphs of up to maxlen nodes (mixed-rank unions)
+                        let gmax = if maxlen > 6 { maxlen } else { 8 };
+                        let nodes = if large { r.range(200, gmax) } else { r.small(gmax) };
+                        let ne = if nodes == 0 { 0 } else if gmax > 8 { r.below(2 * nodes + 1) } else { r.small(8) };
+                        if nodes > 16 {
+                            ctx.class("components_of_a_graph_with_more_than_16_nodes");
+                        }
                         let src: Vec<usize> = r.vec_below(ne, nodes.max(1));
                         let tgt: Vec<usize> = r.vec_below(ne, nodes.max(1));
                         let input = json!({"sources": src, "targets": tgt, "n": nodes});
@@ -425,6 +533,24 @@ macro_rules! array_contract_checks {
                                 }
                             }
                             ctx.check(ok, &p("sort_by", "values-in-key-order"), || json!({"input": input, "observed": x.0}));
+                        }
+                        if let Some(x) = call!(ctx, "sort_by<T>", input, s(&v).sort_by(&s(&keys))) {
+                            let mut ok = x.0.len() == n;
+                            if ok {
+                                let mut at = 0;
+                                let mut ks = keys.clone();
+                                ks.sort();
+                                ks.dedup();
+                                for k in ks {
+                                    let mut want: Vec<String> = (0..n).filter(|&i| keys[i] == k).map(|i| format!("e{}", v[i])).collect();
+                                    let mut got: Vec<String> = x.0[at..at + want.len()].to_vec();
+                                    at += want.len();
+                                    want.sort();
+                                    got.sort();
+                                    ok = ok && want == got;
+                                }
+                            }
+                            ctx.check(ok, &p("sort_by<T>", "values-in-key-order"), || json!({"input": input, "observed": x.0}));
                         }
                     }
                     _ => unary(ctx, &v, tag),
